@@ -150,6 +150,8 @@ pub struct RunResult {
     pub stdin_reads: u64,
     #[serde(default)]
     pub file_reads: u64,
+    #[serde(default)]
+    pub proc_exits: Vec<(String, i32)>,
     pub orphans_blocked: bool,
     pub final_resources: Option<Resources>,
     pub snapshot: Option<serde_json::Value>,
@@ -560,6 +562,7 @@ pub fn run_with(spec: &RunSpec, inspect: Option<Inspect>) -> RunResult {
         opens: w.opens,
         stdin_reads: w.stdin_reads,
         file_reads: w.file_reads,
+        proc_exits: w.proc_exits.clone(),
         orphans_blocked,
         final_resources: out.as_ref().and_then(|o| o.res.clone()),
         snapshot: out.and_then(|o| o.snap),
@@ -587,6 +590,7 @@ fn harness_fail(msg: String) -> RunResult {
         opens: 0,
         stdin_reads: 0,
         file_reads: 0,
+        proc_exits: vec![],
         orphans_blocked: false,
         final_resources: None,
         snapshot: None,
